@@ -12,8 +12,12 @@ SUPPORTED = {"is_ready": "omj", "earliest_start_time": "omj", "duration": "omj",
              "position_in_job": "o", "remaining_operations": "mj", "is_completed": "omj"}
 
 
-def gen_feats(rng):
-    kinds = rng.sample(sorted(SUPPORTED), rng.randint(1, 4))
+def gen_feats(rng, exact_only=False):
+    names = sorted(SUPPORTED)
+    if exact_only:
+        # features that hold times or durations are float32: differences of values beyond 2**24 are not exact, nothing to compare
+        names = [k for k in names if k in ("is_ready", "is_scheduled", "position_in_job", "remaining_operations", "is_completed")]
+    kinds = rng.sample(names, rng.randint(1, min(4, len(names))))
     out = []
     for k in kinds:
         sup = SUPPORTED[k]
@@ -106,9 +110,17 @@ class Check(PropertyCheck):
 
     def single_scenario(self, rng):
         family, jobs = gen.gen_instance(rng, None, max_jobs=4, max_machines=4, max_ops=3)
+        if rng.random() < 0.12:
+            # durations beyond the exact range of float32 (feature values are shown as `big` on both sides); most of the time a
+            # necessarily sequential instance (one machine or one job): its makespan is the exact integer sum of all durations
+            if rng.random() < 0.75:
+                family, jobs = gen.gen_instance(rng, rng.choice(["single_machine", "single_job"]), max_jobs=4, max_machines=4, max_ops=3)
+            B = rng.choice([2 ** 24, 20_000_001, 2 ** 25 + 1, 3 * 10 ** 7 + 1])
+            jobs = [[(ms, d + B + rng.randint(0, 98)) for ms, d in job] for job in jobs]
+            family += "+big"
         f = gen.gen_filter(rng)
         head, meta = env_head(rng)
-        feats = gen_feats(rng)
+        feats = gen_feats(rng, exact_only=family.endswith("+big"))
         lines = ["new", instance_line(jobs), gen.filter_line(f), "env " + " ; ".join([head] + feats), "eobs"]
         total = gen.num_ops(jobs)
         M = 1 + max(m for job in jobs for ms, _ in job for m in ms)
